@@ -123,17 +123,25 @@ PROPS = {
     },
     "C26": {
         "level": "proof",
-        "verus": ["execution", "collect_fields"],
-        "explanation": "KERNEL (the selection-collection half of the executor). Unit collect_fields: Verus proves that the executor's collect_fields computes the spec's CollectFields -- for every schema, document (fragments may even be cyclic), variables map, "
+        "verus": ["execution", "collect_fields", "complete_list"],
+        "explanation": "KERNELS (selection collection, list completion, ExecuteField, null propagation, error paths). Unit collect_fields: Verus proves that the executor's collect_fields computes the spec's CollectFields -- for every schema, document (fragments may even be cyclic), variables map, "
                        "object type and selection set, with visitedFragments / groupedFields threaded through as in the spec: @skip / @include, response keys (alias else name) grouped in order of first appearance, each named fragment expanded at most once and only if it exists and "
                        "DoesFragmentTypeApply, inline fragments unless their type condition does not apply. The specification function carries a fuel for fragment expansion; the contract holds for EVERY fuel >= the number of defined-but-unvisited fragments "
                        "(each expansion marks one more fragment visited, so such fuel cannot run out: no acyclicity assumption). Unit execution: Verus proves, for every schema / selection / variables map, three decision functions of the executor against the specification text: "
                        "try_nullify (Handling Field Errors: a value passes through; a propagated null stops at the first nullable position and continues through non-null ones, for every Type), "
                        "does_fragment_type_apply == DoesFragmentTypeApply (same object type / objectType implements the interface / objectType is a member of the union; false for anything else), "
                        "eval_if_arg == the value of the `if` argument of @skip / @include (Boolean literal, or a variable whose coerced value is a JSON boolean; nothing otherwise), and Selection::directives. "
+                       "Unit complete_list (async stripped as a listed rewrite; the resolver's item stream is a finite sequence): complete_list_value computes CompleteValue for list types with the null-propagation rules for EVERY list of items "
+                       "(an item error makes a nullable item null, a non-null item nulls the list if the list is nullable and propagates otherwise; every item is completed with the ITEM type at path + [index]); "
+                       "non-null positions are never null (the list itself, and no item of a list of non-null); execute_field == coerce arguments, resolve, complete at the field's path, then handle the field error against the field definition's type; "
+                       "path_to_vec gives the root-first path and GraphQLError::field_error stores it; every error recorded while completing a list / executing a field lies at or below that position, a resolver error exactly at it. "
                        "Bodies are re-extracted from /repo on every run.",
-        "assumptions": ["IndexMap / IndexSet / JsonMap lookups behave as maps / sets keyed by the name's text; DirectiveList::get returns the first directive with that name; specified_argument_by_name the argument with that name (shim contracts)"],
-        "not_decided": ["the rest of the main clause: ExecuteSelectionSet / ExecuteField / CompleteValue (async), list handling, coerce_argument_values, error paths, data == null exactly when a null reaches the root",
+        "assumptions": ["IndexMap / IndexSet / JsonMap lookups behave as maps / sets keyed by the name's text; DirectiveList::get returns the first directive with that name; specified_argument_by_name the argument with that name (shim contracts)",
+                        "complete_list: complete_value (not extracted) is assumed to be a function of its arguments that only adds errors at or below its path and never yields null for a non-null type -- the contract this unit proves for the list case; "
+                        "coerce_argument_values and the resolver call are opaque functions of their arguments; the resolver's list yields finitely many (< usize::MAX) items; await points are plain calls; "
+                        "ExecutionContext.errors (&mut Vec) is held as the Vec; serde_json's From<Vec<Value>> is Value::Array; Vec::reverse / Enumerate::next have their std meaning"],
+        "not_decided": ["the rest of the main clause: ExecuteSelectionSet's loop, complete_value (leaf / object dispatch, result coercion of scalars and enums), coerce_argument_values, the root (data == null exactly when a null reaches it), "
+                        "what an error message says, what the result is when the resolver's iterator itself fails for an item of nullable type",
                         "termination of collect_fields' recursion (exec_allows_no_decreases_clause; it follows from the counting argument of the contract but is not checked)",
                         "that the executor calls these three functions in the right places (call sites are async code, not extracted)"],
     },
